@@ -252,7 +252,12 @@ def _judge_step(ctx, pym, state, mats, info, step):
         f2, _ = ref.judge(A, B, W2, Q2, sorter=(state["sort"], fresh[3]),
                           rec=(fresh[2].calls if fresh[2] is not None else None), **jk)
         if not f2:
-            fails = [("history/" + m, dict(d, step=step, fresh_instance_conforms=True)) for m, d in fails]
+            # ... and the long-lived instance must fail again when simply asked again (rules out ARPACK's random start)
+            W3, Q3 = _respond(pym, mod, sigs, mats, rec)
+            f3, _ = ref.judge(A, B, W3, Q3, sorter=(state["sort"], keyfn),
+                              rec=(rec.calls if rec is not None else None), **jk)
+            if f3:
+                fails = [("history/" + m, dict(d, step=step, fresh_instance_conforms=True)) for m, d in fails]
     if fails:
         m, d = fails[0]
         d = dict(d, step=step, also=[x for x, _ in fails[1:]])
